@@ -44,6 +44,10 @@ def main():
         if hits:
             raise core.Infra("forbidden tokens in Lean sources: %r" % hits[:10])
         audit, cached = core.lean_audit(mod.MODULE)
+        for extra_mod, prefix in getattr(mod, "EXTRA_AUDIT", []):
+            a2, c2 = core.lean_audit(extra_mod, prefix)
+            audit.update(a2)
+            cached = cached and c2
         if not audit:
             raise core.Infra("no theorems found in " + mod.MODULE)
         core.assert_repo_under_test()
